@@ -42,7 +42,7 @@ def run(tier, out):
         # intensity or the traffic -- each footprint must still be the energy times the intensity that applies NOW
         n_hist = 25 if tier == "quick" else 500
         edited = numcheck.edited_events(ns, range(base + 70000, base + 70000 + n_hist), 2,
-                                        kinds=("ci", "svci", "net", "pue", "starts", "overload", "overload", "burst"), simulate=True, with_fixed=True)
+                                        kinds=("ci", "svci", "net", "pue", "starts", "overload", "overload", "burst"), simulate=True, with_fixed=True, group_prob=0.35, with_totals=True)
         for e in edited:
             e["tid"] += 3 * 10 ** 6
         events += edited
@@ -52,6 +52,9 @@ def run(tier, out):
         out.evaluations += sum(len(e.get("obs", [])) + len(e.get("comps", [])) for e in events)
         for e in totals:
             out.nontrivial.add(("totals", e["seed"]))
+        for e in edited:
+            if e["ev"] == "Totals":
+                out.nontrivial.add(("totals-after-edit", e["seed"], e["seq"]))
         numcheck.judge(out, events, fails)
         for e in totals[:2]:
             out.sample({"seed": e["seed"], "components": [[c["o"], c["part"]] for c in e["comps"]], "views": e["views"],
@@ -59,9 +62,11 @@ def run(tier, out):
         out.extra.update({"rule": "a case = one real system built from lattice inputs: footprint values compared exactly "
                                   "with EFNumeric, total / components / views compared in mg; distinct by seed",
                           "sharing_shapes_seen": sorted(shapes), "systems_with_totals": len(totals),
-                          "models_observed_after_a_simulation_and_an_edit": len([e for e in edited if e["seq"] > 0]),
+                          "models_observed_after_a_simulation_and_an_edit": len([e for e in edited if e["seq"] > 0 and e["ev"] == "Model"]),
+                          "totals_read_on_live_systems_after_an_edit": len([e for e in edited if e["ev"] == "Totals"]),
                           "simulations_toggled_before_edits": numcheck.SKIPPED.get("simulations", 0),
-                          "refused_edits_followed_by_an_observation": numcheck.SKIPPED.get("refused", 0)})
+                          "refused_edits_followed_by_an_observation": numcheck.SKIPPED.get("refused", 0),
+                          "edits_made_of_two_changes_in_one_update": numcheck.SKIPPED.get("grouped", 0)})
         out.assumptions += ["the hourly total is compared with the sum of components in mg with a slack of 60 mg + one per "
                             "component (the code rounds the total to 1e-4 kg)"]
         if not shapes & {"network-shared", "server-shared-by-jobs", "journey-shared-by-patterns"}:
